@@ -16,7 +16,49 @@ def device_bytes_for(byte0):
     return lambda n: [byte0] + [0] * (min(n, 36) - 1)
 
 
-def check(prog, run):
+def table_mutations_on_attach(prog):
+    """[(device type, event)] for every write to a command-set table (or other object built at import
+    time in scsi_enum_command) that attaching a facade performs -- shared with C14"""
+    I = prog.I
+    mod = prog.module(ENUM_MOD)
+    scsi_cls = prog.cls(SCSI_MOD, "SCSI")
+    out = []
+    n = 0
+    for dt in range(32):
+        si = StandIn(prog, check_condition="never", device_bytes=device_bytes_for(dt)).install()
+        try:
+            def t():
+                dev = make_scsi_device(prog)
+                dev.attrs["_opcodes"] = mod.env[reffacade.DEFAULT_SET]
+                I.instantiate(scsi_cls, [dev], {}, None, _F())
+                ev = [e for e in I.events if e["kind"] in ("static-mutation", "class-store", "global-store")
+                      and "scsi_enum_command" in str(e.get("origin") or e.get("cls") or e.get("module"))]
+                snap = {}
+                if ev:      # the tables as they stand after the attach
+                    for sname in SETS:
+                        tab = mod.env.get(sname)
+                        snap[sname] = {}
+                        for k, op in (tab.members.items() if isinstance(tab, EnumVal) else ()):
+                            try:
+                                snap[sname][k] = norm_int(I.get_attr(op, "value", None, _F())) if isinstance(op, Instance) else op
+                            except PyRaise:
+                                snap[sname][k] = None
+                return ev, snap
+            for p in I.explore(t, max_paths=16):
+                n += 1
+                if p.returned:
+                    out.extend((dt, e, p.value[1]) for e in p.value[0])
+        finally:
+            si.remove()
+    return n, out
+
+
+def thorough(prog, run):
+    """every ordered pair of the 32 device types for attach / re-attach (1024 sequences)"""
+    check(prog, run, reps=list(range(32)), only_reattach=True)
+
+
+def check(prog, run, reps=None, only_reattach=False):
     I = prog.I
     run.explanation = ("SCSI.__init__ / SCSI.__call__ (-> __init_opcode -> inquiry -> execute -> Inquiry.unmarshall_datain) are "
                        "abstractly interpreted over a stand-in transport that answers the INQUIRY with byte 0 = each of the 256 "
@@ -79,13 +121,14 @@ def check(prog, run):
                     s.attrs["device"] = prior
                     I.call_function(callf, [s, dev], {}, None, _F())
                 calls = [e for e in I.events if e["kind"] == "external-call" and e["name"] == "sgio.execute"]
-                return s, dev, calls
+                muts = [e for e in I.events if e["kind"] in ("static-mutation", "class-store", "global-store", "memo-store")]
+                return s, dev, calls, muts
             return I.explore(t, max_paths=16)
         finally:
             si.remove()
 
     nvals = 0
-    for entry in ("init", "call"):
+    for entry in (() if only_reattach else ("init", "call")):
         fn = init if entry == "init" else callf
         for byte0 in range(256):
             nvals += 1
@@ -98,7 +141,7 @@ def check(prog, run):
                     run.violation("attach-succeeds", c, "attach raises %s (INQUIRY byte 0 = %#04x)" % (p.raised.describe(), byte0),
                                   file, fn.node.lineno, fn.qualname)
                     continue
-                s, dev, calls = p.value
+                s, dev, calls, muts = p.value
                 got = byid.get(id(dev.attrs.get("_opcodes")))
                 if want is not None and got != want:
                     run.violation("device-type-selects-set", c,
@@ -123,7 +166,7 @@ def check(prog, run):
                                   "the facade object keeps command-set state in %s: it leaks to the next attached device" % leaked,
                                   file, fn.node.lineno, fn.qualname)
     # re-attach: sequences over pairs of representative types
-    reps = [0x00, 0x01, 0x03, 0x05, 0x08, 0x1F]
+    reps = reps if reps is not None else [0x00, 0x01, 0x03, 0x05, 0x08, 0x1F]
     npairs = 0
     for a in reps:
         for b in reps:
@@ -138,7 +181,10 @@ def check(prog, run):
                     si.device_bytes = device_bytes_for(a)
                     s = I.instantiate(scsi_cls, [d1], {}, None, _F())
                     si.device_bytes = device_bytes_for(b)
+                    n_before = len([e for e in I.events if e["kind"] == "external-call" and e["name"] == "sgio.execute"])
                     I.call_function(callf, [s, d2], {}, None, _F())
+                    sent = [e for e in I.events if e["kind"] == "external-call" and e["name"] == "sgio.execute"][n_before:]
+                    I.event("reattach-inquiries", n=len(sent), through=[e["args"][0] for e in sent], d2file=d2.attrs.get("_file"))
                     return s, d1, d2
                 ps = I.explore(t, max_paths=16)
             finally:
@@ -149,10 +195,17 @@ def check(prog, run):
                     run.violation("reattach", c, "raises %s" % p.raised.describe(), file, callf.node.lineno, callf.qualname)
                     continue
                 s, d1, d2 = p.value
+                ri = [e for e in p.events if e["kind"] == "reattach-inquiries"]
+                if ri and (ri[-1]["n"] != 1 or ri[-1]["through"][0] is not ri[-1]["d2file"]):
+                    run.violation("one-standard-inquiry", "re-attach " + c,
+                                  "re-attaching sends %d INQUIRY commands to the new device (the selection must be made from the new device's own answer)"
+                                  % ri[-1]["n"], file, callf.node.lineno, callf.qualname)
                 g1, g2 = byid.get(id(d1.attrs.get("_opcodes"))), byid.get(id(d2.attrs.get("_opcodes")))
                 w1 = reffacade.DEVICE_TYPE_SET.get(a, g1)
                 w2 = reffacade.DEVICE_TYPE_SET.get(b)
-                bad = (g1 != w1) or (w2 is not None and g2 != w2) or (w2 is None and g2 != reffacade.DEFAULT_SET) or s.attrs.get("device") is not d2
+                # processor / unrecognised types: any table that still offers the primary commands
+                prim_ok = g2 is not None and all(n in tables[g2].members for n in reffacade.PRIMARY_COMMANDS)
+                bad = (g1 != w1) or (w2 is not None and g2 != w2) or (w2 is None and not prim_ok) or s.attrs.get("device") is not d2
                 if bad:
                     run.violation("reattach", c, "after re-attaching, first device has %r, second %r (expected %r / %r)" % (g1, g2, w1, w2 or "spc"),
                                   file, callf.node.lineno, callf.qualname)
@@ -160,4 +213,5 @@ def check(prog, run):
                     run.ok("reattach", c, {"first": g1, "second": g2})
     run.count("byte0_values", nvals)
     run.count("reattach_pairs", npairs)
-    run.floor("byte-0 values x entry points", nvals, 512)
+    if not only_reattach:
+        run.floor("byte-0 values x entry points", nvals, 512)
